@@ -81,20 +81,18 @@ def corr(ctx):
             ok = err is None and opened == [o] and (o in names)
             ctx.corr_case("file_opened", ok, {"family": fam, "FeH": jf(x), "opened": opened, "model": o, "error": err},
                           branch=fam + ("/clamped" if x * 100 < lo or x * 100 > hi else ""))
-    # kick fallback tables + clamp consistency in the model constructor
+    # kick fallback tables + clamp consistency in the model constructors
     names, vals = grid("uSSE_rapid")
     for _ in range(ctx.n(40, 400)):
         x = gen_feh(ctx.rng)
-        with LoadSpy() as spy:
-            try:
-                f = real.quick_emf(FeH=x, nbins=(1, 1, 2), tout=(30.0,), natal_kicks=True, kick_method="maxwellian", BH_ret_dyn=0.0)
-                err = None
-            except Exception as e:
-                err = f"{type(e).__name__}: {e}"[:100]
-        opened = [f for f in spy.files if "uSSE_rapid" in f]
+        which = ctx.rng.choice(["EvolvedMF", "EvolvedMF", "InitialBHPopulation"])
+        got, err = kick_tables(which, x)
         want = run_driver([f"snap {vals[0]} {vals[-1]} {h(x)}"])[0]
-        got = sorted(set(re.search(r"FEH([+-]\d+\.\d+)\.dat", f).group(1) for f in opened))
-        ctx.corr_case("kick_table", err is None and got == [want], {"FeH": jf(x), "opened": got, "model": want, "error": err})
+        # the predictor opens one table, the kick routine at least one more: a run in which the kick table was never
+        # reached would say nothing about it
+        ctx.corr_case("kick_table", err is None and len(got) >= 2 and set(got) == {want},
+                      {"class": which, "FeH": jf(x), "opened": got, "model": want, "error": err},
+                      branch=which + ("/clamped" if x * 100 < vals[0] or x * 100 > vals[-1] else ""))
     # WD and lifetime rows
     wdgrid = np.loadtxt(ifmr.get_data("sevtables/wdifmr.dat"))
     fehs = [gen_feh(ctx.rng) for _ in range(ctx.n(200, 2000))]
@@ -109,7 +107,41 @@ def corr(ctx):
     ctx.sample({"op": "snap", "x": fehs[0], "model_wd_row": o_wd[0], "model_msto_row": o_ms[0]})
 
 
+def kick_tables(which, x):
+    """uSSE_rapid tables opened while a model with Maxwellian natal kicks is built and evolved past BH formation
+    (retention chosen so that the 'kick basically all' shortcut is not taken and the kick routine is reached)"""
+    import warnings
+    with LoadSpy() as spy:
+        try:
+            if which == "EvolvedMF":
+                real.quick_emf(FeH=x, nbins=(1, 1, 2), tout=(30.0,), natal_kicks=True, kick_method="maxwellian", BH_ret_dyn=0.3, vesc=200.0)
+            else:
+                from ssptools.masses import PowerLawIMF
+                with warnings.catch_warnings():
+                    warnings.simplefilter("ignore")
+                    evolve_mf.InitialBHPopulation.from_IMF(PowerLawIMF([0.1, 0.5, 1.0, 100.0], [-0.5, -1.3, -2.5], N0=5e5), [1, 1, 2], x,
+                                                           natal_kicks=True, kick_method="maxwellian", vesc=200.0)
+            err = None
+        except Exception as e:
+            err = f"{type(e).__name__}: {e}"[:160]
+    return [re.search(r"FEH([+-]\d+\.\d+)\.dat", f).group(1) for f in spy.files if "uSSE_rapid" in f], err
+
+
 # ------------------------------------------------------------------ predicate on the real code
+def check_kicks(which, x):
+    names, vals = grid("uSSE_rapid")
+    got, err = kick_tables(which, x)
+    if err is not None:
+        return {"clause": "every metallicity is accepted by a model with natal kicks", "observed": err}
+    if len(got) < 2:
+        return None
+    best = min(abs(x - v / 100) for v in vals)
+    for g in got:
+        if abs(x - float(g)) > best + 1e-12:
+            return {"clause": "the kick fallback table is the nearest tabulated metallicity", "opened": got, "best": best}
+    return None
+
+
 def check_nearest(fam, x):
     method, pred = FAMILIES[fam]
     names, vals = grid(fam)
@@ -151,6 +183,12 @@ def sweep(ctx):
         for x in xs:
             bad = check_nearest(fam, x)
             ctx.sweep_case("nearest_table", (fam, x), bad is None, {"failing_input": {"call": "nearest", "args": {"family": fam, "FeH": jf(x)}}, "observed": bad}, branch=fam)
+    for _ in range(ctx.n(40, 400) * eff):
+        x = gen_feh(ctx.rng)
+        which = ctx.rng.choice(["EvolvedMF", "InitialBHPopulation"])
+        bad = check_kicks(which, x)
+        ctx.sweep_case("kick_tables", (which, x), bad is None, {"failing_input": {"call": "kicks", "args": {"class": which, "FeH": jf(x)}}, "observed": bad},
+                       branch=which)
     for _ in range(ctx.n(40, 600) * eff):
         x = gen_feh(ctx.rng)
         bad = check_rows(x)
@@ -159,6 +197,8 @@ def sweep(ctx):
 
 def replay(ctx, fi):
     a = fi["args"]
+    if fi["call"] == "kicks":
+        return check_kicks(a["class"], unjf(a["FeH"]))
     if fi["call"] == "nearest":
         return check_nearest(a["family"], unjf(a["FeH"]))
     if fi["call"] == "rows":
